@@ -397,6 +397,61 @@ theorem mapped_checker_selects (f : Bytes → Bool) (m : List (Bytes × Bytes)) 
   cases look m field <;> rfl
 
 
+/-! ## overwrites: the round trips do not depend on what the field held
+
+Every round-trip theorem above is stated for an ARBITRARY bucket state `tb` / `es`; instantiated at
+the state any history of earlier field operations leaves (`persist tb ops c`, in particular an earlier
+write of a related value to the very same field), they say that the LAST accepted write alone
+decides what is read back: no stale member of an earlier string list, list or map survives, whatever
+the relation between the old and the new value (same length, duplicates, permutation, subset, …). -/
+
+theorem strlist_overwrite_roundtrip (tb : TB) (hist : List (Bytes × FieldOp)) (c1 c2 : Checker) (name : Bytes)
+    (ys : List Bytes) (hp : proceedWithSet (persist tb hist c1) name c2 = true)
+    (hok : (setStringList (persist tb hist c1) name ys c2).err = none) :
+    getStringList (setStringList (persist tb hist c1) name ys c2).es name = some (sortDedup ys) :=
+  strlist_roundtrip (persist tb hist c1) name ys c2 hp hok
+
+/-- in particular for two `SetStringList` in a row on one field, e.g. `[a, b]` then `[a, a]`. -/
+theorem strlist_twice (tb : TB) (c1 c2 : Checker) (name : Bytes) (xs ys : List Bytes)
+    (hp : proceedWithSet (setStringList tb name xs c1) name c2 = true)
+    (hok : (setStringList (setStringList tb name xs c1) name ys c2).err = none) :
+    getStringList (setStringList (setStringList tb name xs c1) name ys c2).es name = some (sortDedup ys) :=
+  strlist_roundtrip (setStringList tb name xs c1) name ys c2 hp hok
+
+theorem list_overwrite_roundtrip (tb : TB) (hist : List (Bytes × FieldOp)) (c1 c2 : Checker) (name : Bytes)
+    (ys : List Value) (hs : supported (.list ys) = true)
+    (hp : proceedWithSet (persist tb hist c1) name c2 = true)
+    (hok : (putList (persist tb hist c1) name ys c2).err = none) :
+    getList (putList (persist tb hist c1) name ys c2).es name = .ok (some (normalize (.list ys))) :=
+  list_roundtrip (persist tb hist c1) name ys c2 hs hp hok
+
+theorem map_overwrite_roundtrip (tb : TB) (hist : List (Bytes × FieldOp)) (c1 c2 : Checker) (name : Bytes)
+    (kvs : List (Bytes × Value)) (a : Bool) (hs : supportedKvs kvs = true)
+    (hp : proceedWithSet (persist tb hist c1) name c2 = true)
+    (hok : (putMap (persist tb hist c1) name kvs c2 a).err = none) :
+    getMap (putMap (persist tb hist c1) name kvs c2 a).es name = .ok (normalize (.map kvs)) :=
+  map_roundtrip (persist tb hist c1) name kvs c2 a hs hp hok
+
+theorem string_overwrite_roundtrip (tb : TB) (hist : List (Bytes × FieldOp)) (c1 c2 : Checker) (name s : Bytes)
+    (hp : proceedWithSet (persist tb hist c1) name c2 = true)
+    (hok : (setString (persist tb hist c1) name s c2).err = none) :
+    getString (setString (persist tb hist c1) name s c2).es name = .str s :=
+  string_roundtrip (persist tb hist c1) name s c2 hp hok
+
+/-- … and a second write the checker does not select leaves the field reading what the first
+    write left. -/
+theorem unselected_overwrite_keeps (tb : TB) (name : Bytes) (op1 op2 : FieldOp) (c1 : Checker) (f : Bytes → Bool)
+    (hf : f name = false) (hc : op2.checked = true) :
+    applyOp (applyOp tb name op1 c1) name op2 (some f) = applyOp tb name op1 c1 :=
+  applyOp_unselected _ name op2 f hf hc
+
+/-- non-vacuity of the success hypotheses: `[a, b]` then `[a, a]` on a fresh field reads `[a]`. -/
+example :
+    let tb : TB := { es := [] }
+    (setStringList (setStringList tb [102] [[97], [98]] none) [102] [[97], [97]] none).err = none ∧
+    getStringList (setStringList (setStringList tb [102] [[97], [98]] none) [102] [[97], [97]] none).es [102] = some [[97]] := by
+  decide
+
 /-! ## field checkers across context derivation (GetParentContext, WithFieldOverrides, GetOrCreatePath)
 
 `ctxApply tb ctx name op` is one field operation through a context whose bucket lies at `ctx.path`
